@@ -44,11 +44,11 @@ def build_harness(std=False):
     if not std:
         rel = common.cargo_build(HARNESS_CRATE, TARGET_SHUTTLE)
         return os.path.join(rel, BIN)
-    cdir = os.path.join(common.ROOT, HARNESS_CRATE)
+    cdir = common.crate_dir(HARNESS_CRATE)
     for f in ("Cargo.lock", "rust-toolchain.toml"):
         if not os.path.exists(os.path.join(cdir, f)) and os.path.exists(os.path.join(common.REPO, f)):
             shutil.copy(os.path.join(common.REPO, f), os.path.join(cdir, f))
-    tdir = os.path.join(common.BUILD, f"target-{TARGET_STD}")
+    tdir = common.target_dir(TARGET_STD)
     rc, lg = common.sh(["cargo", "build", "--offline", "--release", "--no-default-features"], cwd=cdir,
                        timeout=2400, env={"CARGO_TARGET_DIR": tdir, "RUSTFLAGS": f"--cfg {common.GUARD}"})
     if rc != 0:
